@@ -6,23 +6,25 @@ os.chdir(ROOT / "coq"); (ROOT / "build").mkdir(exist_ok=True)
 TMP = str(ROOT / "build" / "_chk.v")
 # property -> (imports, [(theorem, module-qualified or plain name)])
 SPEC = {
+ "C02": ("Kernels SliceAP ColSlice SelRows GetItem SetItem", ["col_kernel_spec","ap_getslice","col_slice_row","build_indices_correct","resolve_ok","resolve_cells","sel_rows_In"]),
+ "C13": ("Bits BitProof WindowCore DigitSlice WindowProof", ["pack_registers","window_core","digits_slice"]),
  "C01": ("Shape BuildIdx Geometry GeomProof", ["geometry_starts","geometry_lengths","geometry_size","build_rows_observers","build_flat_accept","build_flat_reject","to_numpy_spec","from_numpy_roundtrip","legacy_offsets_shape","unravel_all","ravel_all","build_indices_correct"]),
- "C03": ("SetItem", ["setitem_correct"]),
+ "C03": ("SetItem XorProof", ["setitem_correct","getitem_factor","resolve_cells","raw_broadcast_correct"]),
  "C04": ("UfuncProof XorProof", ["ufunc2_correct","raw_broadcast_correct"]),
- "C05": ("ReduceProof ArgmaxProof", ["reduce_correct","argmax_correct","argmin_correct"]),
- "C06": ("Chain", ["chain_correct","indistinguishable_read"]),
- "C07": ("ScanProof AccumProof DiffProof SortProof UniqueProof UniqueLens", ["cumsum_correct","accumulate_correct","diff_correct","sort_correct","unique_correct"]),
+ "C05": ("ReduceProof ArgmaxProof", ["reduce_correct","first_occurrences","argmax_correct","argmin_correct"]),
+ "C06": ("Chain MaterialiseWF", ["derived_denote","chain_correct","indistinguishable_read","materialise_wf","rows_of_denote"]),
+ "C07": ("ScanProof AccumProof DiffProof SortProof BucketSort LexSort UniqueProof UniqueLens", ["cumsum_correct","accumulate_correct","diff_correct","sort_buckets","two_pass_rows","index_array_char","sort_correct","unique_correct"]),
  "C08": ("StructProof SubsetProof RSliceProof NonzeroProof PaddedProof Struct2 Struct2Proof", ["concat0_correct","concat1_correct","like_correct","where_correct","where_scalar_correct","subset_correct","ragged_slice_correct","nonzero_correct","padded_correct"]),
  "C09": ("ColProof ColSum Struct2 Struct2Proof", ["col_counts_correct","colsum_correct","get_column_values_correct"]),
  "C10": ("HeapProof HeapRun HeapRunProof", ["run_sim","C10_partial","apply_hsel_natural","safe_runb_iff","C10_partial_concrete","heap_run_is_value_semantics","C10_refuted"]),
- "C11": ("HashSet HashProof", ["table_is_dictionary","getv_correct","setv_correct"]),
- "C12": ("CounterProof", ["count_correct","count_history","totals_split_and_order_invariant"]),
+ "C11": ("HashInit HashSet HashProof", ["Inv_mk","table_is_dictionary","getv_correct","write_one","setv_correct"]),
+ "C12": ("CounterProof", ["count_correct","count_history","totals_of_batches","totals_split_and_order_invariant"]),
  "C14": ("RoundTrip RLEProof RLEPer CanonProof ToArray StepProof StartEnd BinaryProof RLConcat", ["to_array_from_array","from_array_canonical","decode_from_array","decode_from_array_R","to_array_correct","join_runs_canonical","start_to_end_shape","step_subset_pos","apply_binary_correct","rl_concat_correct"]),
  "C15": ("RLEIndex GetSlice StartEnd StepProof StepNeg", ["get_position_correct","get_slice_correct","start_to_end_decode","start_to_end_shape","step_subset_pos","step_subset_neg"]),
  "C16": ("BinaryProof RLEMisc RLConcat RLEReduce", ["apply_binary_correct","rl_map_correct","rl_sum_correct","rl_any_correct","rl_all_correct","rl_max_correct","rl_mean_correct","rl_hist_correct","rl_concat_correct"]),
  "C17": ("RLEMisc RL2Proof RL2Col RL2Ravel RL2Elem", ["from_ragged_decode","rl2_select_correct","rl2_map_correct","rl2_concat_correct","rl2_sum_correct","rl2_col_correct","rl2_ravel_correct","rl2_elem_correct"]),
  "C18": ("DataClassProof", ["obj_select_entries","obj_item_entry","obj_concat_entries","obj_eqb_iff","varlen_rows"]),
- "C19": ("IdxWidth", ["index_rows_width_independent"]),
+ "C19": ("IdxWidth", ["index_rows_width_independent","excl_prefix_in32"]),
 }
 HEADER = "From Coq Require Import ZArith List Bool.\nFrom NPS Require Import ListAux PySlice NumpySem Scatter BuildIdx XorBroadcast View Index Assign Reduce Scan RaOps Heap Hash HashRun BitArr RLE RLEOps RLE2d DataClass RowsSpec AssignSpec MapSpec Denote {mods}.\nImport ListNotations.\nOpen Scope Z_scope.\n"
 def check(mods, name):
@@ -38,7 +40,10 @@ def check(mods, name):
     return body[1:].strip(), None
 for prop,(mods,ths) in SPEC.items():
     if len(sys.argv) > 1 and prop not in sys.argv[1:]: continue
+    hand = ROOT / "tools" / "props_hand" / f"{prop}.v"
     lines=[f"(* {prop} — property theorems only: each restates the full statement and is closed by the lemma proved in Proofs/. *)", HEADER.format(mods=mods)]
+    if hand.exists():
+        lines = [hand.read_text(), "(* ---- supporting theorems the property theorem rests on (generated) ---- *)", HEADER.format(mods=mods)]
     for t in ths:
         ty, err = check(mods, t)
         if ty is None: print(prop, t, "CHECK FAILED", err); continue
